@@ -11,7 +11,7 @@ func num(n int) promref.Val { return promref.Val{K: promref.VNum, N: n, P: -1} }
 
 func leaf(id int) *promref.Handler { return &promref.Handler{ID: id, K: promref.HReturn, V: num(id)} }
 
-// pinned regression witnesses. 0..2: the nested-drain defect (inbox/C10-nested-drain.md): a reaction whose handler is a
+// pinned regression witnesses (3: a corrected false alarm of the harness). 0..2: the nested-drain defect (inbox/C10-nested-drain.md): a reaction whose handler is a
 // Go native calling a Callable drains the job queue re-entrantly when the outermost entry was a Callable / a Go-held resolver.
 var pinned = []*promref.Program{
 	// p0 = Promise.resolve(1); p0.then(gonative(h1 { p0.then(h2) })); p0.then(h3)      expected h1 h3 h2
@@ -33,6 +33,14 @@ var pinned = []*promref.Program{
 		{K: promref.OpThen, Dst: -1, Src: 0, F: leaf(1)},
 		{K: promref.OpLog, Dst: -1, ID: 2},
 		{K: promref.OpLog, Dst: -1, ID: 3},
+	}}},
+	// harness regression (false alarm of the thorough tier, seed 1 index 346831): a result value nested 5 levels deep
+	// ([{fulfilled:[{rejected:AggregateError[]}]}]) was cut by a depth cap in the engine-side renderer only
+	{Segs: [][]promref.Op{{
+		{K: promref.OpStatic, St: promref.StAny, Dst: 0},
+		{K: promref.OpStatic, St: promref.StAllSettled, Dst: 1, Items: []promref.Val{{K: promref.VProm, P: 0}}},
+		{K: promref.OpCatch, Dst: 2, Src: 0, R: &promref.Handler{ID: 2, K: promref.HReturn, V: promref.Val{K: promref.VProm, P: 1}}},
+		{K: promref.OpStatic, St: promref.StAllSettled, Dst: 4, Items: []promref.Val{{K: promref.VProm, P: 2}}},
 	}}},
 }
 
